@@ -21,7 +21,7 @@ theorem enqueue_cfg (e : Ev) (s : St) : (enqueue e s).cfg = s.cfg := enqueueQ_cf
 theorem enqueue_err (e : Ev) (s : St) : (enqueue e s).err = s.err := enqueueQ_err false e s
 
 theorem hooksFlagged_ok (u : UEnv) (m : Machine) : HooksOK (hooksFlagged u m) :=
-  ⟨enqueue_cfg, enqueue_err, enqueue_cfg, enqueue_err⟩
+  ⟨enqueueQ_cfg true, enqueueQ_err true, enqueueQ_cfg true, enqueueQ_err true⟩
 theorem hooksAsyncStart_ok (u : UEnv) (m : Machine) : HooksOK (hooksAsyncStart u m) :=
   ⟨enqueue_cfg, enqueue_err, enqueue_cfg, enqueue_err⟩
 theorem hooksAsync_ok (u : UEnv) (m : Machine) : HooksOK (hooksAsync u m) :=
